@@ -8,13 +8,14 @@
 namespace vk {
 namespace multi = boost::multi;
 
-enum OpKind : int { K_INDEX, K_SLICED, K_STRIDED, K_DROPPED, K_TAKED, K_ROTATED, K_UNROTATED, K_TRANSPOSED, K_REVERSED, K_DIAGONAL, K_PARTITIONED, K_CHUNKED, K_FLATTED, K_CALL, K_HALVED, K_SLICED3, K_PAREN, K_TILDE, K_RANGE, K_NKINDS };
-inline char const* op_name(int k) { static char const* n[] = {"index", "sliced", "strided", "dropped", "taked", "rotated", "unrotated", "transposed", "reversed", "diagonal", "partitioned", "chunked", "flatted", "call", "halved", "sliced3", "paren", "tilde", "range", "?"}; return n[k < 0 || k > K_NKINDS ? K_NKINDS : k]; }
+enum OpKind : int { K_INDEX, K_SLICED, K_STRIDED, K_DROPPED, K_TAKED, K_ROTATED, K_UNROTATED, K_TRANSPOSED, K_REVERSED, K_DIAGONAL, K_PARTITIONED, K_CHUNKED, K_FLATTED, K_CALL, K_HALVED, K_SLICED3, K_PAREN, K_TILDE, K_RANGE, K_REINDEXED, K_BLOCKED, K_STENCILED, K_NKINDS };
+inline char const* op_name(int k) { static char const* n[] = {"index", "sliced", "strided", "dropped", "taked", "rotated", "unrotated", "transposed", "reversed", "diagonal", "partitioned", "chunked", "flatted", "call", "halved", "sliced3", "paren", "tilde", "range", "reindexed", "blocked", "stenciled", "?"}; return n[k < 0 || k > K_NKINDS ? K_NKINDS : k]; }
 
 struct Op { int kind; L a, b, c; int cat; };  // cat: 0 lvalue, 1 const lvalue, 2 rvalue
 struct Prog { std::vector<L> root; std::vector<Op> ops; };
 
-struct GenCfg { int maxD = 4; int min_ext = 1; int max_ext = 5; int max_ops = 6; int zero_pct = 0; unsigned long kind_mask = ~0UL; };
+constexpr unsigned long REBASING_KINDS = (1UL << K_REINDEXED) | (1UL << K_BLOCKED) | (1UL << K_STENCILED);
+struct GenCfg { int maxD = 4; int min_ext = 1; int max_ext = 5; int max_ops = 6; int zero_pct = 0; unsigned long kind_mask = ~REBASING_KINDS; };  // index-base changing operations are only enabled by C19
 
 inline Prog gen_prog(Rng& g, GenCfg const& c, int D = 0) {
 	Prog p; if(D == 0) D = int(g.in(1, c.maxD));
@@ -40,7 +41,10 @@ template<class V, class F> bool with_cat_nc(V& v, int cat, F&& f) {
 	else { with_cat(v, cat, std::forward<F>(f)); return true; }
 }
 
-template<class Vis> struct Interp {
+// RB (re-based mode, C19): index-taking operations receive reported_first + relative index; the model stays the zero-based twin.
+template<class V, class F> void with_cat_mut(V& v, int cat, F&& f) { if(cat == 2) { f(std::move(v)); } else { f(v); } }  // never the const category
+
+template<class Vis, bool RB = false> struct Interp {
 	Vis& vis; Prog const& prog;
 
 	template<class V> void run(V&& v, MV const& m, std::size_t pc, char const* last_op) {
@@ -59,15 +63,17 @@ template<class Vis> struct Interp {
 		auto cs = [&](char const* n) { static char const* c[] = {"", "c.", "m."}; return std::string(c[o.cat]) + n; };
 		auto S = [](L x) { return std::to_string(x); };
 		op(op_name(o.kind));
+		L f0 = 0; std::vector<L> fs(std::size_t(D), 0);
+		if constexpr(RB) { if(!empty) { f0 = L(v.extension().first()); std::size_t q = 0; std::apply([&](auto const&... x) { ((fs[q++] = L(x.first())), ...); }, v.extensions().base()); } }
 		// Empty shapes: the library collapses the sizes of empty arrays/views (e.g. {3,0} reports (0,0)), so the model cannot decide
 		// the domain of index-taking operations there; only argument-free operations (and sliced(0,0)) are applied to empty views.
 		if(empty && !(o.kind == K_ROTATED || o.kind == K_UNROTATED || o.kind == K_TRANSPOSED || o.kind == K_TILDE || o.kind == K_REVERSED || o.kind == K_PAREN || o.kind == K_SLICED)) { run(std::forward<V>(v), m, pc + 1, "skip"); return; }
 		switch(o.kind) {
 		case K_INDEX: if constexpr(D > 1) { if(s0 > 0) { L i = o.a % s0; MV nm = m_index(m, i);
-			with_cat(v, o.cat, [&](auto&& vv) { next(std::forward<decltype(vv)>(vv)[i], nm, cs("[") + S(i) + "]"); }); return; } } break;
+			with_cat(v, o.cat, [&](auto&& vv) { next(std::forward<decltype(vv)>(vv)[f0 + i], nm, cs("[") + S(f0 + i) + "]"); }); return; } } break;
 		case K_SLICED: { L a = s0 ? o.a % (s0 + 1) : 0; L b = a + (o.b % (s0 - a + 1)); if(a == b && o.c % 4 != 0 && s0 > 0) { a = o.a % s0; b = a + 1 + o.b % (s0 - a); }  // mostly non-empty
 			if(empty) { a = 0; b = 0; } MV nm = m_sliced(m, a, b);
-			with_cat(v, o.cat, [&](auto&& vv) { next(std::forward<decltype(vv)>(vv).sliced(a, b), nm, cs("sliced(") + S(a) + "," + S(b) + ")"); }); return; }
+			with_cat(v, o.cat, [&](auto&& vv) { next(std::forward<decltype(vv)>(vv).sliced(f0 + a, f0 + b), nm, cs("sliced(") + S(f0 + a) + "," + S(f0 + b) + ")"); }); return; }
 		case K_STRIDED: { L s = 1 + o.a % 3; if(s0 > 0 && s0 % s == 0) { MV nm = m_strided(m, s);
 			if(with_cat_nc(v, o.cat, [&](auto&& vv) { next(std::forward<decltype(vv)>(vv).strided(s), nm, cs("strided(") + S(s) + ")"); })) return; } } break;
 		case K_DROPPED: { L n = o.a % (s0 + 1); if(n == s0 && o.c % 4 != 0 && s0 > 0) n = o.a % s0; if(empty) break; MV nm = m_dropped(m, n);
@@ -92,17 +98,25 @@ template<class Vis> struct Interp {
 			with_cat(v, o.cat, [&](auto&& vv) { next(std::forward<decltype(vv)>(vv).flatted(), nm, cs("flatted")); }); return; } } break;
 		case K_SLICED3: { if(empty) break; L a = o.a % s0; L s = 1 + o.c % 3; L q = 1 + o.b % ((s0 - a + s - 1) / s); L b = a + q * s; if(b > s0) { b = s0; if((b - a) % s != 0) break; }
 			MV nm = m_strided(m_sliced(m, a, b), s);
-			with_cat(v, o.cat, [&](auto&& vv) { next(std::forward<decltype(vv)>(vv).sliced(a, b, s), nm, cs("sliced(") + S(a) + "," + S(b) + "," + S(s) + ")"); }); return; }
+			with_cat(v, o.cat, [&](auto&& vv) { next(std::forward<decltype(vv)>(vv).sliced(f0 + a, f0 + b, s), nm, cs("sliced(") + S(f0 + a) + "," + S(f0 + b) + "," + S(s) + ")"); }); return; }
 		case K_PAREN: { with_cat(v, o.cat, [&](auto&& vv) { next(std::forward<decltype(vv)>(vv)(), m, cs("()")); }); return; }
 		case K_RANGE: { if(empty) break; L a = o.a % s0; L b = a + 1 + o.b % (s0 - a); MV nm = m_sliced(m, a, b);
-			with_cat(v, o.cat, [&](auto&& vv) { next(std::forward<decltype(vv)>(vv).range({a, b}), nm, cs("range({") + S(a) + "," + S(b) + "})"); }); return; }
+			with_cat(v, o.cat, [&](auto&& vv) { next(std::forward<decltype(vv)>(vv).range({f0 + a, f0 + b}), nm, cs("range({") + S(f0 + a) + "," + S(f0 + b) + "})"); }); return; }
+		case K_REINDEXED: if constexpr(RB) { if(empty) break; L r = o.a % 7 - 3;
+			with_cat_mut(v, o.cat, [&](auto&& vv) { next(std::forward<decltype(vv)>(vv).reindexed(r), m, cs("reindexed(") + S(r) + ")"); }); return; } break;
+		case K_BLOCKED: if constexpr(RB) { if(empty) break; L a = o.a % s0; L b = a + 1 + o.b % (s0 - a); MV nm = m_sliced(m, a, b); int cat = o.cat == 1 ? 0 : o.cat;
+			if(cat == 2) { auto&& w = std::forward<V>(v); next(w.blocked(f0 + a, f0 + b), nm, "blocked(" + S(f0 + a) + "," + S(f0 + b) + ")"); } else { next(v.blocked(f0 + a, f0 + b), nm, "blocked(" + S(f0 + a) + "," + S(f0 + b) + ")"); } return; } break;
+		case K_STENCILED: if constexpr(RB) { if(empty) break; L a = o.a % s0; L b = a + 1 + o.b % (s0 - a);
+			if constexpr(D >= 2) { if(o.c % 2) { L s1 = m.size[1]; L a1 = (o.a / 7) % s1; L b1 = a1 + 1 + (o.b / 7) % (s1 - a1); std::vector<CallArg> as{{1, a, b, 0}, {1, a1, b1, 1}}; MV nm = m_call(m, as);
+				next(v.stenciled({f0 + a, f0 + b}, {fs[1] + a1, fs[1] + b1}), nm, "stenciled({" + S(f0 + a) + "," + S(f0 + b) + "},{" + S(fs[1] + a1) + "," + S(fs[1] + b1) + "})"); return; } }
+			MV nm = m_sliced(m, a, b); next(v.stenciled({f0 + a, f0 + b}), nm, "stenciled({" + S(f0 + a) + "," + S(f0 + b) + "})"); return; } break;
 		case K_CALL: { if(empty) break;
 			// a fixed catalogue of argument-kind patterns per dimensionality (argument kinds are compile-time types)
-			auto rg = [&](std::size_t d, L salt) { L sd = m.size[d]; L a = (o.a / (1 + L(d) * 7) + salt) % sd; L b = a + 1 + (o.b / (1 + L(d) * 5)) % (sd - a); return CallArg{1, a, b}; };
-			auto ix = [&](std::size_t d) { return CallArg{0, (o.b / (1 + L(d) * 3)) % m.size[d], 0}; };
+			auto rg = [&](std::size_t d, L salt) { L sd = m.size[d]; L a = (o.a / (1 + L(d) * 7) + salt) % sd; L b = a + 1 + (o.b / (1 + L(d) * 5)) % (sd - a); return CallArg{1, a, b, int(d)}; };
+			auto ix = [&](std::size_t d) { return CallArg{0, (o.b / (1 + L(d) * 3)) % m.size[d], 0, int(d)}; };
 			CallArg const all{2, 0, 0};
-			auto R = [](CallArg const& c) { return multi::irange{c.a, c.b}; };
-			auto T = [&](std::vector<CallArg> const& as) { std::string t = cs("("); for(std::size_t i = 0; i < as.size(); ++i) { if(i) t += ","; t += as[i].kind == 0 ? S(as[i].a) : as[i].kind == 1 ? "{" + S(as[i].a) + "," + S(as[i].b) + "}" : "_"; } return t + ")"; };
+			auto R = [&](CallArg const& c) { return multi::irange{c.a + fs[std::size_t(c.dim)], c.b + fs[std::size_t(c.dim)]}; }; auto I = [&](CallArg const& c) { return c.a + fs[std::size_t(c.dim)]; };
+			auto T = [&](std::vector<CallArg> const& as) { std::string t = cs("("); for(std::size_t i = 0; i < as.size(); ++i) { if(i) t += ","; t += as[i].kind == 0 ? S(as[i].a + fs[i]) : as[i].kind == 1 ? "{" + S(as[i].a + fs[i]) + "," + S(as[i].b + fs[i]) + "}" : "_"; } return t + ")"; };
 			int const pat = int(o.c % 8);
 			if constexpr(D == 1) {
 				if(pat % 2 == 0) { auto a0 = rg(0, 0); std::vector<CallArg> as{a0}; MV nm = m_call(m, as); with_cat(v, o.cat, [&](auto&& vv) { next(std::forward<decltype(vv)>(vv)(R(a0)), nm, T(as)); }); }
@@ -112,33 +126,33 @@ template<class Vis> struct Interp {
 				auto r0 = rg(0, 0), r1 = rg(1, 1); auto i0 = ix(0), i1 = ix(1);
 				switch(pat) {
 				case 0: { std::vector<CallArg> as{r0, r1}; MV nm = m_call(m, as); with_cat(v, o.cat, [&](auto&& vv) { next(std::forward<decltype(vv)>(vv)(R(r0), R(r1)), nm, T(as)); }); return; }
-				case 1: { std::vector<CallArg> as{i0, r1}; MV nm = m_call(m, as); with_cat(v, o.cat, [&](auto&& vv) { next(std::forward<decltype(vv)>(vv)(i0.a, R(r1)), nm, T(as)); }); return; }
-				case 2: { std::vector<CallArg> as{r0, i1}; MV nm = m_call(m, as); with_cat(v, o.cat, [&](auto&& vv) { next(std::forward<decltype(vv)>(vv)(R(r0), i1.a), nm, T(as)); }); return; }
+				case 1: { std::vector<CallArg> as{i0, r1}; MV nm = m_call(m, as); with_cat(v, o.cat, [&](auto&& vv) { next(std::forward<decltype(vv)>(vv)(I(i0), R(r1)), nm, T(as)); }); return; }
+				case 2: { std::vector<CallArg> as{r0, i1}; MV nm = m_call(m, as); with_cat(v, o.cat, [&](auto&& vv) { next(std::forward<decltype(vv)>(vv)(R(r0), I(i1)), nm, T(as)); }); return; }
 				case 3: { std::vector<CallArg> as{all, r1}; MV nm = m_call(m, as); with_cat(v, o.cat, [&](auto&& vv) { next(std::forward<decltype(vv)>(vv)(multi::_, R(r1)), nm, T(as)); }); return; }
-				case 4: { std::vector<CallArg> as{all, i1}; MV nm = m_call(m, as); with_cat(v, o.cat, [&](auto&& vv) { next(std::forward<decltype(vv)>(vv)(multi::_, i1.a), nm, T(as)); }); return; }
+				case 4: { std::vector<CallArg> as{all, i1}; MV nm = m_call(m, as); with_cat(v, o.cat, [&](auto&& vv) { next(std::forward<decltype(vv)>(vv)(multi::_, I(i1)), nm, T(as)); }); return; }
 				case 5: { std::vector<CallArg> as{r0}; MV nm = m_call(m, as); with_cat(v, o.cat, [&](auto&& vv) { next(std::forward<decltype(vv)>(vv)(R(r0)), nm, T(as)); }); return; }
 				case 6: { std::vector<CallArg> as{r0, all}; MV nm = m_call(m, as); with_cat(v, o.cat, [&](auto&& vv) { next(std::forward<decltype(vv)>(vv)(R(r0), multi::_), nm, T(as)); }); return; }
-				default: { std::vector<CallArg> as{i0, all}; MV nm = m_call(m, as); with_cat(v, o.cat, [&](auto&& vv) { next(std::forward<decltype(vv)>(vv)(i0.a, multi::_), nm, T(as)); }); return; }
+				default: { std::vector<CallArg> as{i0, all}; MV nm = m_call(m, as); with_cat(v, o.cat, [&](auto&& vv) { next(std::forward<decltype(vv)>(vv)(I(i0), multi::_), nm, T(as)); }); return; }
 				}
 			} else if constexpr(D == 3) {
 				auto r0 = rg(0, 0), r1 = rg(1, 1), r2 = rg(2, 2); auto i0 = ix(0), i1 = ix(1), i2 = ix(2);
 				switch(pat) {
 				case 0: { std::vector<CallArg> as{r0, r1, r2}; MV nm = m_call(m, as); with_cat(v, o.cat, [&](auto&& vv) { next(std::forward<decltype(vv)>(vv)(R(r0), R(r1), R(r2)), nm, T(as)); }); return; }
-				case 1: { std::vector<CallArg> as{i0, r1, r2}; MV nm = m_call(m, as); with_cat(v, o.cat, [&](auto&& vv) { next(std::forward<decltype(vv)>(vv)(i0.a, R(r1), R(r2)), nm, T(as)); }); return; }
-				case 2: { std::vector<CallArg> as{r0, i1, r2}; MV nm = m_call(m, as); with_cat(v, o.cat, [&](auto&& vv) { next(std::forward<decltype(vv)>(vv)(R(r0), i1.a, R(r2)), nm, T(as)); }); return; }
-				case 3: { std::vector<CallArg> as{r0, r1, i2}; MV nm = m_call(m, as); with_cat(v, o.cat, [&](auto&& vv) { next(std::forward<decltype(vv)>(vv)(R(r0), R(r1), i2.a), nm, T(as)); }); return; }
-				case 4: { std::vector<CallArg> as{i0, all, r2}; MV nm = m_call(m, as); with_cat(v, o.cat, [&](auto&& vv) { next(std::forward<decltype(vv)>(vv)(i0.a, multi::_, R(r2)), nm, T(as)); }); return; }
-				case 5: { std::vector<CallArg> as{all, i1, all}; MV nm = m_call(m, as); with_cat(v, o.cat, [&](auto&& vv) { next(std::forward<decltype(vv)>(vv)(multi::_, i1.a, multi::_), nm, T(as)); }); return; }
-				case 6: { std::vector<CallArg> as{r0, i1, i2}; MV nm = m_call(m, as); with_cat(v, o.cat, [&](auto&& vv) { next(std::forward<decltype(vv)>(vv)(R(r0), i1.a, i2.a), nm, T(as)); }); return; }
+				case 1: { std::vector<CallArg> as{i0, r1, r2}; MV nm = m_call(m, as); with_cat(v, o.cat, [&](auto&& vv) { next(std::forward<decltype(vv)>(vv)(I(i0), R(r1), R(r2)), nm, T(as)); }); return; }
+				case 2: { std::vector<CallArg> as{r0, i1, r2}; MV nm = m_call(m, as); with_cat(v, o.cat, [&](auto&& vv) { next(std::forward<decltype(vv)>(vv)(R(r0), I(i1), R(r2)), nm, T(as)); }); return; }
+				case 3: { std::vector<CallArg> as{r0, r1, i2}; MV nm = m_call(m, as); with_cat(v, o.cat, [&](auto&& vv) { next(std::forward<decltype(vv)>(vv)(R(r0), R(r1), I(i2)), nm, T(as)); }); return; }
+				case 4: { std::vector<CallArg> as{i0, all, r2}; MV nm = m_call(m, as); with_cat(v, o.cat, [&](auto&& vv) { next(std::forward<decltype(vv)>(vv)(I(i0), multi::_, R(r2)), nm, T(as)); }); return; }
+				case 5: { std::vector<CallArg> as{all, i1, all}; MV nm = m_call(m, as); with_cat(v, o.cat, [&](auto&& vv) { next(std::forward<decltype(vv)>(vv)(multi::_, I(i1), multi::_), nm, T(as)); }); return; }
+				case 6: { std::vector<CallArg> as{r0, i1, i2}; MV nm = m_call(m, as); with_cat(v, o.cat, [&](auto&& vv) { next(std::forward<decltype(vv)>(vv)(R(r0), I(i1), I(i2)), nm, T(as)); }); return; }
 				default: { std::vector<CallArg> as{r0, r1}; MV nm = m_call(m, as); with_cat(v, o.cat, [&](auto&& vv) { next(std::forward<decltype(vv)>(vv)(R(r0), R(r1)), nm, T(as)); }); return; }
 				}
 			} else if constexpr(D == 4) {
 				auto r0 = rg(0, 0), r1 = rg(1, 1), r2 = rg(2, 2), r3 = rg(3, 3); auto i0 = ix(0), i1 = ix(1), i2 = ix(2), i3 = ix(3);
 				switch(pat % 4) {
 				case 0: { std::vector<CallArg> as{r0, r1, r2, r3}; MV nm = m_call(m, as); with_cat(v, o.cat, [&](auto&& vv) { next(std::forward<decltype(vv)>(vv)(R(r0), R(r1), R(r2), R(r3)), nm, T(as)); }); return; }
-				case 1: { std::vector<CallArg> as{i0, r1, all, i3}; MV nm = m_call(m, as); with_cat(v, o.cat, [&](auto&& vv) { next(std::forward<decltype(vv)>(vv)(i0.a, R(r1), multi::_, i3.a), nm, T(as)); }); return; }
-				case 2: { std::vector<CallArg> as{r0, i1, i2, r3}; MV nm = m_call(m, as); with_cat(v, o.cat, [&](auto&& vv) { next(std::forward<decltype(vv)>(vv)(R(r0), i1.a, i2.a, R(r3)), nm, T(as)); }); return; }
-				default: { std::vector<CallArg> as{all, all, r2, i3}; MV nm = m_call(m, as); with_cat(v, o.cat, [&](auto&& vv) { next(std::forward<decltype(vv)>(vv)(multi::_, multi::_, R(r2), i3.a), nm, T(as)); }); return; }
+				case 1: { std::vector<CallArg> as{i0, r1, all, i3}; MV nm = m_call(m, as); with_cat(v, o.cat, [&](auto&& vv) { next(std::forward<decltype(vv)>(vv)(I(i0), R(r1), multi::_, I(i3)), nm, T(as)); }); return; }
+				case 2: { std::vector<CallArg> as{r0, i1, i2, r3}; MV nm = m_call(m, as); with_cat(v, o.cat, [&](auto&& vv) { next(std::forward<decltype(vv)>(vv)(R(r0), I(i1), I(i2), R(r3)), nm, T(as)); }); return; }
+				default: { std::vector<CallArg> as{all, all, r2, i3}; MV nm = m_call(m, as); with_cat(v, o.cat, [&](auto&& vv) { next(std::forward<decltype(vv)>(vv)(multi::_, multi::_, R(r2), I(i3)), nm, T(as)); }); return; }
 				}
 			}
 			break; }
